@@ -81,6 +81,16 @@ func (s *HistoWriter) WriteForLine(line int, key string, val int64) {
 	}
 }
 
+// ClearFrom blanks the lines from line on that an earlier refresh had written
+func (s *HistoWriter) ClearFrom(line int) {
+	for ; line >= 0 && line < len(s.items); line++ {
+		if s.items[line].set {
+			s.items[line] = histoPair{}
+			s.writer.WriteForLine(line, "")
+		}
+	}
+}
+
 func (s *HistoWriter) UpdateTotal(total int64) {
 	s.total = total
 	s.fullRender()
